@@ -171,7 +171,7 @@ def parse_case(line: str) -> Case:
 
 
 # ------------------------------------------------------------------ real code: direct drive along the tree
-def real_direct(case: Case, mutable: bool = False, shared=None):
+def real_direct(case: Case, mutable: bool = False, shared=None, containers: int = 0):
     """returns (output string, info dict for the oracle).
 
     mutable: chunk / header / footer payloads are bytearrays (allowed by SomeData); `shared` is a dict that
@@ -179,6 +179,10 @@ def real_direct(case: Case, mutable: bool = False, shared=None):
     from odc.geo.cog import _mpu as M
 
     bufs = shared if shared is not None else {}
+
+    def container(idx):
+        # how partition `idx` is handed over: 0 list, 1 tuple, 2 one-shot iterator, 3 generator
+        return (containers >> (2 * (idx % 8))) & 3
 
     def buf(key, bs: bytes):
         if not mutable:
@@ -206,7 +210,11 @@ def real_direct(case: Case, mutable: bool = False, shared=None):
                 chunks.append((buf(("c", state["cid"]), payload(state["off"], sz)), state["cid"]))
                 state["off"] += sz
                 state["cid"] += 1
-            (out,) = M._mpu_append_chunks_op([mpu], chunks, write=w, spill_sz=case.spill)
+            kind = container(idx)
+            part = (chunks if kind == 0 else tuple(chunks) if kind == 1 else iter(chunks) if kind == 2
+                    else (c for c in chunks))
+            mpus = [mpu] if kind in (0, 1) else iter([mpu])
+            (out,) = M._mpu_append_chunks_op(mpus, part, write=w, spill_sz=case.spill)
             return out
         l = ev(t[1])
         r = ev(t[2])
@@ -285,7 +293,7 @@ def oracle(R: Run, case: Case, out: str, info, via: str):
 
 
 # ------------------------------------------------------------------ real code through dask
-def real_dask(R: Run, case_cfg, partitions_per_sub, split_every, sched, use_mpu_write):
+def real_dask(R: Run, case_cfg, partitions_per_sub, split_every, sched, use_mpu_write, gen_parts=False):
     """Run the real dask graph; returns (Case with the tree dask built, out, info)."""
     import dask
     import dask.bag
@@ -306,7 +314,11 @@ def real_dask(R: Run, case_cfg, partitions_per_sub, split_every, sched, use_mpu_
                 off += sz
                 cid += 1
             parts.append(delayed(lambda x: x, pure=False)(items))
-        bags.append(dask.bag.from_delayed(parts))
+        bag = dask.bag.from_delayed(parts)
+        if gen_parts:
+            # partitions arrive as one-shot generators, as after bag.map_partitions(generator_function)
+            bag = bag.map_partitions(lambda part: (x for x in part))
+        bags.append(bag)
 
     keep = []
     trees = {}
@@ -481,14 +493,14 @@ def _cfgs():
         for wpc in (1, 2):
             for hdr in (None, 0, 5):
                 for ftr in (None, 0, 4):
-                    for mp_ in (1, 5):
+                    for mp_ in (0, 1, 5):
                         out.append((True, 10, mp_, 100, spill, wpc, hdr, ftr))
     return out
 
 
 def _domain_desc(tier):
     return ("<=4 partitions x 1-2 chunks of sizes {0,3,10,25} x every binary merge tree x spill {1,10,20} x wpc {1,2} "
-            "x header {none,empty,5} x footer {none,empty,4} x min_part {1,5}, min_write_sz 10; "
+            "x header {none,empty,5} x footer {none,empty,4} x min_part {0,1,5} x partition container {list,tuple,iterator,generator}, min_write_sz 10; "
             + ("quick: 3 partitions (inner ones 1 chunk), every 7th configuration"
                if tier == "quick" else
                "thorough: 1-2 partitions complete, 3 partitions every 3rd, 4 partitions (<=5 chunks) every 5th configuration"))
@@ -542,7 +554,7 @@ def _exhaustive_worker(job):
             continue
         if (k // stride) % nworkers != w:
             continue
-        o, info = real_direct(c, mutable=(k // stride) % 3 == 0)
+        o, info = real_direct(c, mutable=(k // stride) % 3 == 0, containers=(k * 2654435761) & 0xFFFF)
         lines.append((c.line(), o, sig_of(c, o)))
         oracle(col, c, o, info, "direct")
     return lines, col.oracle_failures, col.oracle_evals, col.dist
@@ -611,7 +623,7 @@ def run(R: Run):
             leaves.append([rng.choice([0, 1, min_write // 2, min_write, min_write + 1, 2 * min_write + 3,
                                        5 * min_write + 1, rng.randint(0, 60)]) for _ in range(nch)])
         wpc = rng.choice([0, 1, 1, 2, 3])
-        mp = rng.choice([1, 1, 2, 7])
+        mp = rng.choice([0, 1, 1, 2, 7])
         cap = mp + npart * wpc
         max_part = rng.choice([cap, cap, cap + 5, 10000]) if rng.random() < 0.95 else max(mp, cap - 1)
         spill = rng.choice([0, 1, min_write, 2 * min_write + 1, 40, 1000])
@@ -619,7 +631,7 @@ def run(R: Run):
         ftr = rng.choice([None, None, 0, 1, min_write + 3])
         c = Case(has_w, min_write, mp, max_part, spill, wpc, hdr, ftr, random_tree(rng, leaves))
         mutable = rng.random() < 0.4
-        o, info = real_direct(c, mutable=mutable)
+        o, info = real_direct(c, mutable=mutable, containers=rng.getrandbits(16))
         R.corr(c.line(), lambda: o, sig=sig_of(c, o) + ("|bytearray" if mutable else ""))
         oracle(R, c, o, info, "direct")
         if mutable and rng.random() < 0.5:
@@ -639,15 +651,20 @@ def run(R: Run):
             subs.append([[rng.choice([0, 3, min_write, 2 * min_write + 5, rng.randint(0, 40)])
                           for _ in range(rng.choice([1, 1, 2, 3]))] for _ in range(npart)])
         wpc = rng.choice([1, 2])
-        mp = rng.choice([1, 3])
+        mp = rng.choice([0, 1, 3])
+        if i % 25 == 7:
+            # a long stream: more partitions than dask's default from_sequence partition cap (100)
+            subs = [[[rng.choice([0, 3, min_write, 2 * min_write + 5])] for _ in range(rng.randint(101, R.pick(140, 260)))]]
         total = sum(len(s) for s in subs)
         cfg = (rng.random() < 0.9, min_write, mp, mp + total * wpc + rng.choice([0, 50]),
                rng.choice([0, 1, min_write, 25, 1000]), wpc, rng.choice([None, 0, 6]), rng.choice([None, None, 5]))
         sched = ["sync", "threads", "random"][i % 3]
         use_mpu_write = rng.random() < 0.5
         split_every = rng.choice([2, 3, 4, 8])
-        case, out, info = real_dask(R, cfg, subs, split_every, sched, use_mpu_write)
-        R.corr(case.line(), lambda: out, sig=f"dask|{sched}|{'mpu_write' if use_mpu_write else f'split{split_every}'}|subs={nsub}")
+        gen_parts = rng.random() < 0.35
+        case, out, info = real_dask(R, cfg, subs, split_every, sched, use_mpu_write, gen_parts=gen_parts)
+        R.corr(case.line(), lambda: out, sig=f"dask|{sched}|{'mpu_write' if use_mpu_write else f'split{split_every}'}|subs={nsub}"
+               + ("|generator-partitions" if gen_parts else "") + ("|>100-partitions" if total > 100 else ""))
         oracle(R, case, out, info, f"dask:{sched}")
         R.count(f"dask-sched:{sched}")
     # ---------------- several uploads inside one dask graph (equal options, different destinations / data)
